@@ -73,7 +73,7 @@ impl Property for C19 {
         for i in 0..rng.small(0, 2) {
             sc.cmd.push(format!("i{i}"));
         }
-        let kind = rng.weighted(&[78, 10, 4, 4, 4]);
+        let kind = rng.weighted(&[78, 10, 4, 4, 4, 3]);
         match kind {
             1 => {
                 // xargs' own errors
@@ -151,6 +151,20 @@ impl Property for C19 {
                 {
                     sc.input = B(gen_tokens(rng, 3, false));
                 }
+            }
+            5 => {
+                // a bare command name found through PATH (in its last directory; an earlier one
+                // may hold a file of that name that cannot be executed): it runs
+                sc.cmd[0] = "@REAL".into();
+                let m = rng.urange(1, 4);
+                sc.opts.push(Opt::N(1));
+                sc.input = B(gen_tokens(rng, m, false));
+                sc.real = Some(RealKind::SimchildOnPath { shadowed: rng.chance(2, 3) });
+                sc.note = "real-simchild-on-path".into();
+                for _ in 0..m {
+                    sc.outcomes.push(if rng.chance(1, 3) { Outcome::Exit(*rng.pick(&[1, 2, 125])) } else { Outcome::Exit(0) });
+                }
+                return sc;
             }
             2 | 3 | 4 => {
                 // calibration against real processes
@@ -304,6 +318,9 @@ impl Property for C19 {
         }
         if sc.real.is_some() {
             rep.probe("real_child_processes");
+        }
+        if matches!(sc.real, Some(RealKind::SimchildOnPath { shadowed: true })) {
+            rep.probe("command_found_on_path_behind_a_file_that_cannot_be_executed");
         }
         if sc.decoy_in_cwd && sc.outcomes.iter().take(planned.max(1)).any(|o| matches!(o, Outcome::SpawnErr(e) if *e == libc::ENOENT)) {
             rep.probe("command_not_found_while_a_file_of_that_name_is_in_the_current_directory");
